@@ -248,3 +248,43 @@ func deepEq(a, b reflect.Value) bool {
 		return a.Interface() == b.Interface()
 	}
 }
+
+// ---- environment stubs: available only in the symbolic engine ----
+// Harnesses that need them are replayed by concrete re-execution inside the
+// engine (mode "engine"); natively these functions only exist so that the
+// packages holding such harnesses still compile.
+
+func notNative(name string) { panic("zzvx." + name + " is only available in the symbolic engine") }
+
+func Register(key string, v interface{})                                { notNative("Register") }
+func Config(key string, on bool)                                        { notNative("Config") }
+func DBPut(ueId string, ratingGroup uint32, field string, value string) { notNative("DBPut") }
+func DBGet(ueId string, ratingGroup uint32, field string) (string, bool) {
+	notNative("DBGet")
+	return "", false
+}
+func DBWrites() int                                 { notNative("DBWrites"); return 0 }
+func HTTPStatus(c interface{}) int                  { notNative("HTTPStatus"); return 0 }
+func HTTPWrites(c interface{}) int                  { notNative("HTTPWrites"); return 0 }
+func HTTPHeader(c interface{}, key string) string   { notNative("HTTPHeader"); return "" }
+func HTTPBody(c interface{}) interface{}            { notNative("HTTPBody"); return nil }
+func HTTPSetParam(c interface{}, key, value string) { notNative("HTTPSetParam") }
+func Notifications() int                            { notNative("Notifications"); return 0 }
+func NotificationURI(i int) string                  { notNative("NotificationURI"); return "" }
+func NotificationBody(i int) interface{}            { notNative("NotificationBody"); return nil }
+func ServerPanicked() bool                          { notNative("ServerPanicked"); return false }
+func AnswersWritten() int                           { notNative("AnswersWritten"); return 0 }
+func ConnsOpened() int                              { notNative("ConnsOpened"); return 0 }
+func ConnsLeaked() int                              { notNative("ConnsLeaked"); return 0 }
+func DiamConn() interface{}                         { notNative("DiamConn"); return nil }
+func LastAnswer(dst interface{}) bool               { notNative("LastAnswer"); return false }
+func GinRoutes() int                                { notNative("GinRoutes"); return 0 }
+func GinRouteMethod(i int) string                   { notNative("GinRouteMethod"); return "" }
+func GinRoutePath(i int) string                     { notNative("GinRoutePath"); return "" }
+func GinChainLen(i int) int                         { notNative("GinChainLen"); return 0 }
+func GinServe(i int, c interface{}) int             { notNative("GinServe"); return 0 }
+func VerifyCalls() int                              { notNative("VerifyCalls"); return 0 }
+func Watch(ptr interface{}, name string)            { notNative("Watch") }
+func RacyLocations() int                            { notNative("RacyLocations"); return 0 }
+func AssertLockDiscipline()                         { notNative("AssertLockDiscipline") }
+func DeliverLateAnswers() int                       { notNative("DeliverLateAnswers"); return 0 }
